@@ -73,7 +73,10 @@ class LogPublisher:
 
         brokenObservers = []
 
-        for observer in self._observers:
+        # Iterate over a snapshot: an observer may add or remove observers
+        # (including itself) while it is being given the event, and that must
+        # not make the remaining observers miss this event.
+        for observer in tuple(self._observers):
             if trace is not None:
                 trace(observer)
 
